@@ -478,6 +478,63 @@ fn fuzz_entry(op: &str, cmd: &Value) -> Option<OpResult> {
             let kind = ["decode0_err", "encode_err", "decode_err"].iter().find(|k| r.get(**k).is_some()).copied().unwrap_or("ok");
             Ok(json!({"kind": kind}))
         })(),
+        "multipart_response" => (|| {
+            // federation authenticated media: multipart/mixed response bodies from a remote server
+            use base64::Engine;
+            use fapi::authenticated_media::{get_content, get_content_thumbnail, Content, ContentMetadata, FileOrLocation};
+            let ct = opt_s(cmd, "content_type").unwrap_or("multipart/mixed; boundary=abcdef");
+            let decode = |body: Vec<u8>, ct: &str| -> Result<String, String> {
+                let mk = || http::Response::builder().status(200).header(http::header::CONTENT_TYPE, ct).body(body.clone());
+                let r1 = get_content::v1::Response::try_from_http_response(mk().map_err(|e| format!("harness: {e}"))?);
+                let r2 = get_content_thumbnail::v1::Response::try_from_http_response(mk().map_err(|e| format!("harness: {e}"))?);
+                if r1.is_ok() != r2.is_ok() {
+                    return Err("get_content and get_content_thumbnail disagree".to_owned());
+                }
+                Ok(match r1 {
+                    Ok(r) => match r.content {
+                        FileOrLocation::File(c) => format!("file:{}:{:?}:{:?}", base64::engine::general_purpose::STANDARD.encode(&c.file),
+                                                           c.content_type, c.content_disposition.map(|d| d.to_string())),
+                        FileOrLocation::Location(l) => format!("location:{l}"),
+                        _ => "other".to_owned(),
+                    },
+                    Err(e) => format!("err:{}", e.to_string().chars().take(80).collect::<String>()),
+                })
+            };
+            if let Some(b64) = opt_s(cmd, "body_b64") {
+                let body = base64::engine::general_purpose::STANDARD.decode(b64).map_err(|e| format!("harness: {e}"))?;
+                return Ok(json!({"decoded": decode(body, ct).map_err(|e| e)?}));
+            }
+            // cycle: encode a value, decode it again
+            let file = base64::engine::general_purpose::STANDARD
+                .decode(opt_s(cmd, "file_b64").unwrap_or("")).map_err(|e| format!("harness: {e}"))?;
+            let content = match opt_s(cmd, "location") {
+                Some(l) => FileOrLocation::Location(l.to_owned()),
+                None => {
+                    let mut c = Content::new(
+                        file.clone(),
+                        opt_s(cmd, "file_content_type").unwrap_or("text/plain").to_owned(),
+                        ruma_common::http_headers::ContentDisposition::new(ruma_common::http_headers::ContentDispositionType::Attachment)
+                            .with_filename(opt_s(cmd, "filename").map(str::to_owned)),
+                    );
+                    if opt_s(cmd, "file_content_type").is_none() {
+                        c.content_type = None;
+                    }
+                    if opt_s(cmd, "filename").is_none() && crate::b(cmd, "no_disposition") {
+                        c.content_disposition = None;
+                    }
+                    FileOrLocation::File(c)
+                }
+            };
+            let resp = get_content::v1::Response::new(ContentMetadata::new(), content);
+            let http: http::Response<Vec<u8>> = match resp.try_into_http_response() {
+                Ok(h) => h,
+                Err(e) => return Ok(json!({"encode_err": e.to_string()})),
+            };
+            let ct2 = http.headers().get(http::header::CONTENT_TYPE).and_then(|v| v.to_str().ok()).unwrap_or("").to_owned();
+            let body = http.body().clone();
+            Ok(json!({"encoded_b64": base64::engine::general_purpose::STANDARD.encode(&body), "content_type": ct2,
+                      "decoded": decode(body, &ct2).map_err(|e| e)?}))
+        })(),
         "fuzz_error_body" => (|| {
             // client-api error bodies: FromHttpResponseError path with non-2xx status
             let h = cmd.get("http").ok_or("harness: http")?;
